@@ -322,10 +322,10 @@ func (c *FnCtx) havocSliceElems(s Val, field string, env *Env) {
 	}
 	arr := c.fresh("hv_elems", "(Array "+c.mode.idxSort()+" "+c.sortOf(et)+")")
 	I := c.mode.idxSort()
-	old := sel(c.heap[name], "(s_reg "+s.T+")")
+	old := c.regionArr(c.heap, name, "(s_reg "+s.T+")")
 	// outside [off, off+len) unchanged
 	c.define("(forall ((i " + I + ")) (! (=> (or " + c.idxLt("i", "(s_off "+s.T+")") + " " + c.idxLe(c.idxAdd("(s_off "+s.T+")", "(s_len "+s.T+")"), "i") + ") (= (select " + arr + " i) (select " + old + " i))) :pattern ((select " + arr + " i))))")
-	c.setHeap(name, sto(c.heap[name], "(s_reg "+s.T+")", arr))
+	c.setRegion(name, "(s_reg "+s.T+")", arr)
 }
 
 func (c *FnCtx) havocNamed(tf string, env *Env) {
@@ -401,11 +401,11 @@ func (c *FnCtx) clearSlice(s Val, et types.Type) {
 	}
 	I := c.mode.idxSort()
 	arr := c.fresh("cleared", "(Array "+I+" "+c.sortOf(et)+")")
-	old := sel(c.heap[name], "(s_reg "+s.T+")")
+	old := c.regionArr(c.heap, name, "(s_reg "+s.T+")")
 	lo := "(s_off " + s.T + ")"
 	hi := c.idxAdd(lo, "(s_len "+s.T+")")
 	c.define("(forall ((i " + I + ")) (! (= (select " + arr + " i) (ite (and " + c.idxLe(lo, "i") + " " + c.idxLt("i", hi) + ") " + c.zero(et) + " (select " + old + " i))) :pattern ((select " + arr + " i))))")
-	c.setHeap(name, sto(c.heap[name], "(s_reg "+s.T+")", arr))
+	c.setRegion(name, "(s_reg "+s.T+")", arr)
 }
 
 // appendOp models append(s, t...) exactly: in place when capacity suffices, else a fresh region.
@@ -448,7 +448,7 @@ func (c *FnCtx) appendOp(cc *ssa.CallCommon) Val {
 		if isStruct(et) {
 			return sel(c.heap[c.fieldHeap(et, field)], "(elt (s_reg "+t.T+") "+pos+")")
 		}
-		return sel(sel(c.heap[c.elemsHeap(et)], "(s_reg "+t.T+")"), pos)
+		return sel(c.regionArr(c.heap, c.elemsHeap(et), "(s_reg "+t.T+")"), pos)
 	}
 	if isStruct(et) {
 		su := et.Underlying().(*types.Struct)
@@ -481,14 +481,13 @@ func (c *FnCtx) appendOp(cc *ssa.CallCommon) Val {
 		c.havocHeap(name)
 		return Val{T: r, Ty: cc.Args[0].Type()}
 	}
-	old := c.heap[name]
-	oldArr := sel(old, "(s_reg "+s.T+")")
+	oldArr := c.regionArr(c.heap, name, "(s_reg "+s.T+")")
 	arr := c.fresh("apparr", "(Array "+I+" "+c.sortOf(et)+")")
 	rel := c.idxSub("i", "(s_off "+r+")")
 	appended := and(c.idxLe("(s_len "+s.T+")", rel), c.idxLt(rel, newLen))
 	base := ite(fits, sel(oldArr, "i"), ite(and(c.idxLe(z, rel), c.idxLt(rel, "(s_len "+s.T+")")), sel(oldArr, c.idxAdd("(s_off "+s.T+")", rel)), c.zero(et)))
 	c.define("(forall ((i " + I + ")) (! (= (select " + arr + " i) (ite " + appended + " " + srcElem(c.idxSub(rel, "(s_len "+s.T+")"), 0) + " " + base + ")) :pattern ((select " + arr + " i))))")
-	c.setHeap(name, sto(old, "(s_reg "+r+")", arr))
+	c.setRegion(name, "(s_reg "+r+")", arr)
 	return Val{T: r, Ty: cc.Args[0].Type()}
 }
 
@@ -519,17 +518,16 @@ func (c *FnCtx) copyOp(cc *ssa.CallCommon) Val {
 		return Val{T: nn, Ty: types.Typ[types.Int]}
 	}
 	c.copyAnchor(cc, d, s, nn)
-	old := c.heap[name]
-	oldArr := sel(old, "(s_reg "+d.T+")")
+	oldArr := c.regionArr(c.heap, name, "(s_reg "+d.T+")")
 	arr := c.fresh("cparr", "(Array "+I+" "+c.sortOf(et)+")")
 	rel := c.idxSub("i", "(s_off "+d.T+")")
 	var src string
 	if srcStr {
 		src = "(sbyte " + s.T + " " + rel + ")"
 	} else {
-		src = sel(sel(old, "(s_reg "+s.T+")"), c.idxAdd("(s_off "+s.T+")", rel))
+		src = sel(c.regionArr(c.heap, name, "(s_reg "+s.T+")"), c.idxAdd("(s_off "+s.T+")", rel))
 	}
 	c.define("(forall ((i " + I + ")) (! (= (select " + arr + " i) (ite (and " + c.idxLe(c.mode.idxLit(0), rel) + " " + c.idxLt(rel, nn) + ") " + src + " (select " + oldArr + " i))) :pattern ((select " + arr + " i))))")
-	c.setHeap(name, sto(old, "(s_reg "+d.T+")", arr))
+	c.setRegion(name, "(s_reg "+d.T+")", arr)
 	return Val{T: nn, Ty: types.Typ[types.Int]}
 }
